@@ -163,6 +163,7 @@ def check_time_expression(ctx):
 
 
 RUBY_GUARD = "isinstance(self.parent, model.Ruby)"
+RUBY_INV_OK = [False]    # set by run() when INV-ruby holds
 
 
 def check_ruby_invariant(ctx):
@@ -218,7 +219,8 @@ def check_ruby_invariant(ctx):
 def run(ctx):
   ix = ctx.ix
   nul.IMPLICATIONS.clear()
-  if check_ruby_invariant(ctx):
+  RUBY_INV_OK[0] = bool(check_ruby_invariant(ctx))
+  if RUBY_INV_OK[0]:
     nul.IMPLICATIONS.append((RUBY_GUARD, True, {"self.ruby_rbc", "self.ruby_rtc"}))
   fs = common.funcs(ctx, MODS)
   ms = common.mods(ctx, MODS)
@@ -245,4 +247,12 @@ def run(ctx):
                                  continuation={("start_tag_annot", "annot_cref"): "buffer", ("annot_cref", "start_tag_annot"): "buffer"})
   ctx.floor("TYPESTATE-buffer", "state transitions sharing an accumulator", nt2, 2)
   lint.falsy_numeric_default(ctx, common.mods(ctx, ["ttconv.vtt.reader", "ttconv.vtt.tokenizer", "ttconv.utils"]))
+  from ..rules import forbid
+  def _no_ruby_open(test, pol):
+    # INV-ruby (verified above): self.parent is a Ruby => ruby_rbc and ruby_rtc are set; so where both are None the cursor is not a Ruby
+    from ..rules import match as _m
+    parts = test.values if isinstance(test, ast.BoolOp) and isinstance(test.op, ast.Or) and not pol else ([test] if not pol else [])
+    return any(_m.is_none_test(p_, lambda e: unparse(e) in ("self.ruby_rbc", "self.ruby_rtc")) is False for p_ in parts)
+  nfr = forbid.check_forbidden_receivers(ctx, ctx.ix.cls("ttconv.vtt.reader:_TextCueParser"), implications={"Ruby": _no_ruby_open} if RUBY_INV_OK[0] else None) + forbid.check_forbidden_receivers(ctx, ctx.ix.cls("ttconv.srt.reader:_TextParser"))
+  ctx.floor("RAISE-guard", "calls on the parsers' cursor of methods that always raise for a class the cursor can hold", nfr, 1)
   common.check_history_independence(ctx, ["ttconv.vtt.reader", "ttconv.vtt.tokenizer", "ttconv.utils"])
